@@ -236,3 +236,5 @@ TEXT["C17"]["text"] += (" C17_heap_reverse_in_place / C17_heap_sort_in_place: on
                         "nothing is allocated, a panicking Sort changes nothing.")
 TEXT["C01"]["text"] += (" C01_heap_parse_back_list/_object: for a container living in a heap whose tree is in the domain, the text of String() parses to exactly the "
                         "tree that the model's Clone step rebuilds in cells allocated by that step.")
+TEXT["C07"]["text"] += (" C07_heap_equals_is_an_observer / C07_heap_equals_answer: on the heap the Equals step leaves the whole state exactly as it was, never panics, "
+                        "and answers veq of the two trees the operands denote (a function of the data, not of identity, history or earlier calls).")
